@@ -336,9 +336,9 @@ static void step(dns::DnsCache &cache, Ref &ref, const Op &op, Verdict &v, StepL
                          : src->kind == OP_PUTNEG ? "putNegative:ttl=" + std::to_string(src->ttl)
                                                   : "putNegativeSOA:soa-ttl=" + std::to_string(src->soaTtl) + ",soa-minimum=" + std::to_string(src->soaMin);
       v.sig = what;
-      snprintf(d, sizeof d, "%s is a hit %lld ms after %s although the %s TTL is %u s (reference: expired; a TTL of 0 means do not cache)",
-               op.name.c_str(), (long long)((now - insertedAt) / 1000000), src->name.c_str(), src->kind == OP_PUT ? "smallest record" : "negative-caching",
-               src->ttl);
+      snprintf(d, sizeof d, "%s is a hit %lld ms after %s although the %s TTL is %u s (reference: elapsed%s)", op.name.c_str(),
+               (long long)((now - insertedAt) / 1000000), src->name.c_str(), src->kind == OP_PUT ? "smallest record" : "negative-caching", src->ttl,
+               src->ttl == 0 ? "; a TTL of 0 means do not cache" : "");
       v.detail = d;
     }
     break;
